@@ -79,6 +79,9 @@ type FSPlan struct {
 	FailAt    int
 	FailErr   syscall.Errno
 	FailShort int
+	// FailSticky: the condition persists (no space, no permission, read-only
+	// file system): every later op of the same kind fails the same way.
+	FailSticky bool
 }
 
 // FS is the simulated disk: an op-log plus fault and crash injection over a
@@ -93,13 +96,14 @@ type FS struct {
 	// Sched, when set, makes every tracked op a scheduling point.
 	Sched *Sched
 
-	mu     sync.Mutex
-	gen    uint64
-	Ops    []OpRec
-	count  int
-	dead   bool
-	fidSeq int
-	Fired  string // description of the injected fault/crash, when it fired
+	mu         sync.Mutex
+	gen        uint64
+	Ops        []OpRec
+	count      int
+	dead       bool
+	fidSeq     int
+	Fired      string // description of the injected fault/crash, when it fired
+	stickyKind string
 	// TaskName, when set, labels ops with the issuing task.
 	TaskName func() string
 	// Fault, when set, is consulted for every tracked op (simworld engine);
@@ -187,7 +191,14 @@ func (fs *FS) FSBefore(op *simhook.FSOp) simhook.FSVerdict {
 	k := fs.count
 	if fs.Plan.FailAt == k {
 		fs.Fired = fmt.Sprintf("op %d (%s %s) fails with %v short=%d", k, op.Kind, fs.rel(op.Path), fs.Plan.FailErr, fs.Plan.FailShort)
+		if fs.Plan.FailSticky {
+			fs.stickyKind = op.Kind
+			fs.Fired += " and so does every later " + op.Kind
+		}
 		return simhook.FSVerdict{Err: pathErr(op, fs.Plan.FailErr), Short: fs.Plan.FailShort}
+	}
+	if fs.stickyKind != "" && op.Kind == fs.stickyKind {
+		return simhook.FSVerdict{Err: pathErr(op, fs.Plan.FailErr)}
 	}
 	if fs.Plan.CrashAt == k && fs.Plan.Variant != "full" && (op.Kind == "write" || op.Kind == "writeat") {
 		short := 0
@@ -301,8 +312,8 @@ func (fs *FS) Yield(tag string) bool {
 	}
 	return false
 }
-func (fs *FS) LoopTick(site string)  {}
-func (fs *FS) Durable() bool         { return fs.InBubble }
+func (fs *FS) LoopTick(site string) {}
+func (fs *FS) Durable() bool        { return fs.InBubble }
 func (fs *FS) Finalizer(site string) {
 	fs.mu.Lock()
 	fs.Finalizers++
